@@ -124,6 +124,18 @@ def transaction_region(ctx):
             ctx.check(not bad, f'{f.qualname}:flush before send', c, 'on every feasible path a flush precedes the send',
                       'a path reaches the send without flushing stale input first: a late or unsolicited reply is returned '
                       'as the reply of this command', f)
+        sleeps = {i for c in calls_in(f.node) if call_name(c) in ('time.sleep', 'sleep') for i in cfg.node_of(c)}
+        between = set()
+        for fl in flush_ids:
+            between |= cfg.reach([fl], avoid=send_ids, exc=False)
+        ctx.check(not (between & sleeps), f'{f.qualname}:no wait between flush and send', f.node, 'the flush immediately precedes the send',
+                  'a sleep lies between the flush of stale input and the send: a late or unsolicited line arriving during that wait is returned as '
+                  'the reply of this command', f)
+        for c in calls_in(f.node):
+            if call_attr(c) in ('getFullReply', 'readBytes') and dotted(c.func.value) == 'self':
+                ctx.check(in_lock(c, '_lock'), f'{f.qualname}:{call_attr(c)} inside _lock', c, 'the remaining reply bytes are read inside the lock region',
+                          f'`{src(c)}` (which may read the rest of a variable length reply) runs outside the communicator lock: another thread '
+                          'flushes these bytes as garbage and this caller consumes the other reply', f)
         for c in recvs:
             bad = [s for i in cfg.node_of(c) for s in ins.get(i, ()) if not sdict(s).get('sent')]
             ctx.check(not bad, f'{f.qualname}:send before receive', c, 'on every feasible path a send precedes the receive',
